@@ -110,24 +110,38 @@ def run(ctx):
             cases.append(dict(idx=i, expr='%s %s %d %s %s' % (fn, epsl, GID[g], rlist(X), rlist(a + tail)), comps=[(j, o[j], tl) for j, tl in tol_group(g, o, eps)]))
     # Jinvp and Jr (float64)
     for g in GROUPS:
-        for t in range(ctx.scale(8, 300) if g in ('SO3', 'SE3') else ctx.scale(4, 150)):
+        for t in range(ctx.scale(12, 300) if g in ('SO3', 'SE3') else ctx.scale(8, 150)):
             dtype, eps = torch.float64, 2.0 ** -52
             X = [float(v) for v in torch.tensor(generic_elt(rng, g, torch, dtype), dtype=dtype).tolist()]
+            if t % 4 == 1:
+                # rotation exactly the identity, translation / scale generic: the small-angle branches
+                tt, qq, ss = split_elt(g, X)
+                X = join_elt(g, tt, [0.0, 0.0, 0.0, 1.0], ss)
+            elif t % 4 == 2:
+                tt, qq, ss = split_elt(g, X)
+                h = 1e-9
+                X = [float(v) for v in torch.tensor(join_elt(g, tt, [h * 0.6, -h * 0.8, 0.0, 1.0], ss), dtype=dtype).tolist()]
             p = [rng.uniform(-2, 2) if t % 5 else 0.0 for _ in range(ADIM[g])]
             Xg = pp.LieTensor(torch.tensor(X, dtype=dtype), ltype=getattr(pp, g + '_type'))
             pl = pp.LieTensor(torch.tensor(p, dtype=dtype), ltype=getattr(pp, ALGS[GROUPS.index(g)] + '_type'))
             o = [float(v) for v in Xg.Jinvp(pl).tensor().tolist()]
+            if any(not math.isfinite(v) for v in o):
+                ctx.violation('jinvp-nonfinite:%s' % g, 'Jinvp returned a non-finite value %s' % o, dict(kind='jinvp', g=g, dtype='float64', X=X, a=p, op='Jinvp'))
+                continue
             i = len(meta)
             ctx.case((g, 'Jinvp', tuple(X), tuple(p)), branch='%s-Jinvp' % g)
             meta.append(dict(kind='jinvp', g=g, dtype='float64', X=X, a=p, op='Jinvp', impl=o))
             sc = max(1.0, max(abs(v) for v in o))
-            cases.append(dict(idx=i, expr='jinvp (1/4503599627370496) %d %s %s' % (GID[g], rlist(X), rlist(p)), comps=[(j, o[j], 1e-9 * sc) for j in range(len(o))]))
+            cases.append(dict(idx=i, expr='jinvp (1/4503599627370496) %d %s %s' % (GID[g], rlist(X), rlist(p)), comps=[(j, o[j], K_SQRT * math.sqrt(eps) * sc) for j in range(len(o))]))
     for t in range(ctx.scale(18, 400)):
         dtype, eps = torch.float64, 2.0 ** -52
         kind = kindsR[t % 6]
         x = [float(v) for v in torch.tensor(gen_x(rng, 'so3', eps, (kind, 'zero', 'zero')), dtype=dtype).tolist()]
         J = pp.so3(torch.tensor(x, dtype=dtype)).Jr()
         o = [float(v) for v in J.reshape(-1).tolist()]
+        if any(not math.isfinite(v) for v in o):
+            ctx.violation('jr-nonfinite', 'so3 Jr(%s) contains NaN/Inf: %s' % (x, o), dict(kind='jr', g='SO3', dtype='float64', X=x, a=[], op='Jr'))
+            continue
         i = len(meta)
         ctx.case(('so3', 'Jr', tuple(x)), nontrivial=any(v != 0 for v in x), branch='so3-Jr-' + kind)
         meta.append(dict(kind='jr', g='SO3', dtype='float64', X=x, a=[], op='Jr', impl=o))
